@@ -125,6 +125,12 @@ def gen_port(rng, pid):
     if rng.random() < 0.45:                         # the slave has history support
         p['history_interval'] = rng.choice([0, 60, -1])
         p['history_retention'] = rng.choice([0, 3600])
+    if rng.random() < 0.25:                         # the slave is itself a hub: its ports have device_* attributes of their own
+        if 'expression' in p:
+            p['device_expression'] = rng.choice(['SUB(9, 1)', 'own dev expr'])
+        if 'history_interval' in p:
+            p['device_history_interval'] = rng.choice([5, 7200])
+            p['device_history_retention'] = rng.choice([11, 99])
     p['value'] = rand_value(rng, typ)
     p['pending_value'] = None
     if rng.random() < 0.6:
@@ -196,10 +202,28 @@ def gen_slave_op(rng, st, protect=()):
         n, v = rand_attr_change(rng, p)
         p[n] = v
         return ['sa', pid, n, v]
+    if r < 0.80 and ids:             # the port starts reporting attributes it did not have (its attribute set changes)
+        pid = rng.choice(ids)
+        p = st.ports[pid]
+        cands = []
+        if 'history_interval' not in p:
+            cands.append([('history_interval', 60), ('history_retention', 3600)])
+        if 'expression' not in p:
+            cands.append([('expression', 'ADD(3, 4)')])
+        if p['type'] == 'number' and 'unit' not in p:
+            cands.append([('unit', 'V')])
+        if p['type'] == 'number' and 'min' not in p and 'choices' not in p:
+            cands.append([('min', 0), ('max', 100)])
+        if 'device_expression' not in p and 'expression' in p:
+            cands.append([('device_expression', 'own dev expr 2')])
+        if cands:
+            n, v = rng.choice(rng.choice(cands))
+            p[n] = v
+            return ['sa', pid, n, v]
     if r < 0.82 and ids:             # an optional attribute disappears from a port
         pid = rng.choice(ids)
         p = st.ports[pid]
-        names = [n for n in REMOVABLE_ATTRS if n in p]
+        names = [n for n in REMOVABLE_ATTRS if n in p and 'device_' + n not in p]
         if names:
             n = rng.choice(names)
             p.pop(n)
@@ -541,7 +565,7 @@ def view_port_problems(name, shown, sp):
     for n, v in sp.items():
         if n in ('id', 'value', 'pending_value') or v is None:
             continue
-        mn = 'device_' + n if (n == 'expression' or n.startswith('history_')) else n
+        mn = 'device_' + n if is_renamed('device_' + n) else n     # expression, history_*, and their device_... forms
         if n in MASTER_ATTRS and mn == n:
             continue
         if shown.get(mn) != v:
